@@ -1240,9 +1240,78 @@ pub fn classify_server(frame: &[u8], rx_cap: usize) -> Class {
     }
 }
 
+/// Does the strict client-stream decoder allow property `id` in this context?
+/// (0 publish, 1 will, 2 subscribe, 3 unsubscribe, 4 disconnect)
+pub fn client_allows(ctx: u8, id: u8) -> bool {
+    let set: &[u8] = match ctx {
+        0 => P_PUBLISH_C,
+        1 => P_WILL,
+        2 => P_SUBSCRIBE,
+        3 => P_UNSUBSCRIBE,
+        _ => P_DISCONNECT_C,
+    };
+    set.contains(&id)
+}
+
 #[cfg(test)]
 mod tests {
     use super::*;
+
+    #[test]
+    fn decodes_spec_examples() {
+        // PUBLISH QoS 1 with DUP, topic ABC, id 0xBEEF, payload AB CD
+        let p = decode_client(&[0x3A, 0x0a, 0, 3, 0x41, 0x42, 0x43, 0xBE, 0xEF, 0, 0xAB, 0xCD]).unwrap();
+        assert_eq!(p, CPacket::Publish { dup: true, qos: 1, retain: false, topic: "ABC".into(), pid: Some(0xBEEF), props: vec![], payload: vec![0xAB, 0xCD] });
+        // SUBSCRIBE id 16, filter ABC, options 0
+        let p = decode_client(&[0x82, 0x09, 0, 0x10, 0, 0, 3, 0x41, 0x42, 0x43, 0]).unwrap();
+        assert_eq!(p, CPacket::Subscribe { pid: 16, props: vec![], filters: vec![("ABC".into(), 0)] });
+        // PUBREL must carry flags 0010
+        assert!(decode_client(&[0x62, 0x02, 0, 5]).is_ok());
+        assert!(decode_client(&[0x60, 0x02, 0, 5]).is_err());
+        // packet identifier 0, QoS 3, non-canonical length, trailing garbage, empty filter list
+        assert!(decode_client(&[0x32, 0x06, 0, 1, b'a', 0, 0, 0]).is_err());
+        assert!(decode_client(&[0x36, 0x06, 0, 1, b'a', 0, 1, 0]).is_err());
+        assert!(decode_client(&[0xC0, 0x80, 0x00]).is_err());
+        assert!(decode_client(&[0xC0, 0x01, 0x00]).is_err());
+        assert!(decode_client(&[0x82, 0x03, 0, 1, 0]).is_err());
+        // DISCONNECT short and long forms
+        assert_eq!(decode_client(&[0xE0, 0x00]).unwrap(), CPacket::Disconnect { reason: 0, props: vec![] });
+        assert_eq!(decode_client(&[0xE0, 0x02, 0x04, 0x00]).unwrap(), CPacket::Disconnect { reason: 4, props: vec![] });
+        // CONNECT with will QoS 1 + retain, user name and password
+        let mut c = vec![0x10, 0, 0, 4, b'M', b'Q', b'T', b'T', 5, 0b1110_1110, 0, 60, 0, 0, 1, b'c', 0, 0, 1, b'w', 0, 1, 9, 0, 1, b'u', 0, 1, 7];
+        c[1] = (c.len() - 2) as u8;
+        match decode_client(&c).unwrap() {
+            CPacket::Connect { clean_start, keepalive, will: Some(w), username, password, .. } => {
+                assert!(clean_start && keepalive == 60 && w.qos == 1 && w.retain && w.topic == "w" && w.payload == vec![9]);
+                assert_eq!((username.as_deref(), password), (Some("u"), Some(vec![7])));
+            }
+            other => panic!("{:?}", other),
+        }
+    }
+
+    #[test]
+    fn classifier_three_values() {
+        // valid PINGRESP, PINGRESP with flags, PINGRESP with a body, type 0, AUTH, client-only type
+        assert_eq!(classify_server(&[0xD0, 0], 64), Class::MustAccept(SPacket::PingResp));
+        assert!(matches!(classify_server(&[0xD1, 0], 64), Class::MustReject(_)));
+        assert!(matches!(classify_server(&[0xD0, 1, 0], 64), Class::MustReject(_)));
+        assert!(matches!(classify_server(&[0x00, 0], 64), Class::MustReject(_)));
+        assert!(matches!(classify_server(&[0xF0, 0], 64), Class::MustReject(_)));
+        assert!(matches!(classify_server(&[0x82, 0], 64), Class::MustReject(_)));
+        // PUBLISH: QoS 3, topic running past the packet, invalid UTF-8 topic, packet id 0 (DontCare), too large
+        assert!(matches!(classify_server(&[0x36, 3, 0, 1, b'a'], 64), Class::MustReject("QoS 3")));
+        assert!(matches!(classify_server(&[0x30, 3, 0, 9, b'a'], 64), Class::MustReject(_)));
+        assert!(matches!(classify_server(&[0x30, 4, 0, 1, 0xFF, 0], 64), Class::MustReject("invalid UTF-8 topic")));
+        assert!(matches!(classify_server(&[0x32, 6, 0, 1, b'a', 0, 0, 0], 64), Class::DontCare(_)));
+        assert!(matches!(classify_server(&[0x30, 4, 0, 1, b'a', 0], 5), Class::MustReject(_)));
+        // property block: length past the packet is MustReject, unknown property inside is DontCare
+        assert!(matches!(classify_server(&[0x30, 4, 0, 1, b'a', 9], 64), Class::MustReject(_)));
+        assert!(matches!(classify_server(&[0x30, 6, 0, 1, b'a', 2, 0x7E, 0], 64), Class::DontCare(_)));
+        // framing
+        assert!(matches!(frame_server(&[0x30, 0x80, 0x00]), Framing::BadHeader(_)));
+        assert!(matches!(frame_server(&[0x30, 0xFF, 0xFF, 0xFF, 0xFF, 1]), Framing::BadHeader(_)));
+        assert!(matches!(frame_server(&[0x30, 0x05, 1]), Framing::Incomplete));
+    }
 
     #[test]
     fn roundtrip_server_packets() {
